@@ -1,4 +1,5 @@
 import Lemmas.DfsFuel
+import Lemmas.DagApi
 import Lemmas.SchedMore
 import Lemmas.Termination
 /-!
@@ -261,6 +262,84 @@ theorem reachable_invariants (c : Cfg) (hc : Scheduled c) (s : Sched) (hr : Reac
     SInv c s ∧ TInv c s :=
   ⟨reachable_sinv c hc.ancOK s hr, reachable_tinv c s hr⟩
 
+/-! ## The rest of the construction API: `g.Task(id)`, `TaskMap`, `Validate` -/
+
+/-- A recorded definition error is final: whatever calls follow (`AddTask`, `TaskDependsOn`, `TaskRetries`,
+look-ups, `TaskMap` calls), every later `Run` returns the definition errors before anything is scheduled. -/
+theorem build_error_is_final (ops more : List GOp) (h : (buildGraph ops).errs ≠ []) :
+    runPre (buildGraph (ops ++ more)) = .buildErrors := by
+  have hm : ErrsMono (buildGraph ops) (buildGraph (ops ++ more)) := by
+    unfold buildGraph; rw [List.foldl_append]; exact foldl_errs_mono more _
+  exact (run_precedence _).1 (hm.1.ne_nil h)
+
+/-- `g.Task(id)` for an id that is not in the graph is such an error (the graph is then never run with the
+empty task it returned), wherever the call stands — also as an argument of another call. -/
+theorem unknown_task_lookup_rejected (ops more : List GOp) (id : Nat) (f : Bool)
+    (h : (buildGraph ops).has id = false) :
+    runPre (buildGraph (ops ++ [.lookup (some { id := id, hasFn := f, src := .graph })] ++ more)) = .buildErrors := by
+  rw [List.append_assoc]
+  have h1 : (buildGraph (ops ++ [.lookup (some { id := id, hasFn := f, src := .graph })])).errs ≠ [] := by
+    unfold buildGraph at h ⊢
+    rw [List.foldl_append]
+    simp only [List.foldl_cons, List.foldl_nil, buildStep]
+    rw [evalRef_graph_missing _ id f h]
+    simp
+  have := build_error_is_final (ops ++ [.lookup (some { id := id, hasFn := f, src := .graph })]) more h1
+  rw [List.append_assoc] at this
+  exact this
+
+/-- `g.Task(id)` for a registered id is the registered task and records nothing. -/
+theorem known_task_lookup (g : GState) (id : Nat) (f : Bool) (h : g.has id = true) :
+    evalRef g (some { id := id, hasFn := f, src := .graph }) = (g, some { id := id, hasFn := true }) :=
+  evalRef_graph_found g id f h
+
+/-- **Look-ups are transparent**: a call whose `*Task` arguments are written `g.Task("a")` builds exactly the
+graph the same call with the task objects themselves builds, whenever those ids are registered — the
+README's `g.TaskDependsOn(g.Task("a"), g.Task("b"))`. -/
+theorem lookup_transparent (g : GState) (t : Option TaskRef) (deps : List (Option TaskRef)) (n : Int)
+    (ht : Registered g t) (hd : ∀ d ∈ deps, Registered g d) :
+    buildStep g (.dependsOn t deps) = buildStep g (.dependsOn (direct t) (deps.map direct)) ∧
+    buildStep g (.addTask t) = buildStep g (.addTask (direct t)) ∧
+    buildStep g (.retries t n) = buildStep g (.retries (direct t) n) := by
+  refine ⟨?_, ?_, ?_⟩
+  · simp only [buildStep]
+    rw [evalRef_registered g t ht, evalRef_direct]
+    simp only
+    rw [evalRefs_registered g deps hd, evalRefs_direct]
+  · simp only [buildStep]; rw [evalRef_registered g t ht, evalRef_direct]
+  · simp only [buildStep]; rw [evalRef_registered g t ht, evalRef_direct]
+
+/-- `g.Validate(tm)`: the `TaskMap`'s errors when it has any, otherwise the graph's; without a map the graph's. -/
+theorem validate_spec (g : GState) :
+    validate g false = g.errs ∧ (g.tmErrs ≠ [] → validate g true = g.tmErrs) ∧
+    (g.tmErrs = [] → validate g true = g.errs) := by
+  refine ⟨by simp [validate], ?_, ?_⟩
+  · intro h; cases he : g.tmErrs with
+    | nil => exact absurd he h
+    | cons x xs => simp [validate, he]
+  · intro h; simp [validate, h]
+
+/-- `tm.Get(id)` after `tm.Add(id, fn)` is the task that was added (the latest one), and records nothing;
+for an id never added it records `ErrorTaskNotFound` in the map. -/
+theorem taskmap_get_added (g : GState) (id : Nat) (f f' : Bool) :
+    evalRef (tmAdd g id f) (some { id := id, hasFn := f', src := .tmap }) =
+      (tmAdd g id f, some { id := id, hasFn := f }) := tmGet_after_add g id f f'
+
+/-- adding an id twice, an empty id or a nil function to a `TaskMap` is reported by `Validate(tm)`, whatever
+else is added later -/
+theorem taskmap_misuse_reported (g : GState) (id : Nat) (f : Bool) (more : List GOp)
+    (h : id = 0 ∨ f = false ∨ g.tm.any (·.1 == id) = true) :
+    validate (more.foldl buildStep (tmAdd g id f)) true ≠ [] := by
+  have h1 : (tmAdd g id f).tmErrs ≠ [] := by
+    unfold tmAdd
+    rcases h with h | h | h
+    · subst h; simp
+    · subst h; simp
+    · simp [h]
+  have hm := (foldl_errs_mono more (tmAdd g id f)).2.ne_nil h1
+  rw [(validate_spec _).2.1 hm]
+  exact hm
+
 /-! Non-vacuity: a diamond sorts children first; re-adding a task keeps the edges; a 2-cycle and a
 self edge are rejected. -/
 def t (i : Nat) : Option TaskRef := some { id := i }
@@ -271,5 +350,17 @@ example : runPre (buildGraph [.dependsOn (t 1) [t 2], .dependsOn (t 2) [t 1]]) =
 example : runPre (buildGraph [.dependsOn (t 1) [t 1]]) = .cycle := by decide
 example : runPre (buildGraph [.dependsOn (t 1) [t 2], .addTask none]) = .buildErrors := by decide
 example : (buildGraph [.addTask (t 1), .dependsOn (t 2) [t 1], .addTask (t 1)]).children 2 = [1] := by decide
+
+def gt (i : Nat) : Option TaskRef := some { id := i, src := .graph }
+def mt (i : Nat) : Option TaskRef := some { id := i, src := .tmap }
+-- README idiom: tasks added, edges by look-up; a look-up of an unknown id fails the definition
+example : (dfs (buildGraph [.addTask (t 1), .addTask (t 2), .dependsOn (gt 2) [gt 1]])).toOption = some [1, 2] := by decide
+example : runPre (buildGraph [.addTask (t 1), .dependsOn (gt 1) [gt 7]]) = .buildErrors := by decide
+example : (buildGraph [.addTask (t 1), .dependsOn (gt 1) [gt 7]]).errs = [.taskNotFound 7, .taskFn 7] := by decide
+-- TaskMap: get what was added; a missing id and a duplicate are reported by Validate(tm) only
+example : (dfs (buildGraph [.tmAdd 1 true, .tmAdd 2 true, .dependsOn (mt 2) [mt 1]])).toOption = some [1, 2] := by decide
+example : validate (buildGraph [.tmAdd 1 true, .tmAdd 1 true, .addTask (mt 1)]) true = [.taskDuplicate 1] := by decide
+example : validate (buildGraph [.tmAdd 1 true, .addTask (mt 3)]) true = [.taskNotFound 3] := by decide
+example : validate (buildGraph [.tmAdd 1 true, .addTask (mt 3)]) false = [.taskFn 3] := by decide
 
 end GoModel.Dag
